@@ -422,8 +422,11 @@ Definition swaps_layers (l : list (wty * wty * nat)) : list layer :=
   map (fun '(a, b, k) => (BSwap a b, k)) l.
 Definition ty_eqb := list_eqb wty_eqb.
 
-(* from_tk.make_units_adjacent: returns (offset, swaps boxes); the type is unchanged
-   up to a permutation of equal... (all moved wires keep their own types) *)
+(* from_tk.make_units_adjacent: returns (offset, swaps.cod, swaps boxes).  The offset
+   of `Id(left) @ swap @ Id(right)` is len(left) = len(cod[:source]).  The composition
+   check `swaps.cod == left @ box.dom @ right` with left = swaps.cod[:offset] and
+   right = swaps.cod[offset + len(box.dom):] is, for a non-empty box.dom, the same as
+   `layer_ok swaps.cod (box, offset)`. *)
 Fixpoint mua_loop (cod : list wty) (offset : nat) (acc : list (wty * wty * nat))
          (qs : list nat) (i : nat) : nat * list wty * list (wty * wty * nat) :=
   match qs with
@@ -435,14 +438,14 @@ Fixpoint mua_loop (cod : list wty) (offset : nat) (acc : list (wty * wty * nat))
         let cod' := firstn source cod ++ slice cod (S source) target ++ slice cod source (S source)
                     ++ skipn target cod in
         let offset' := if source <=? offset then offset - 1 else offset in
-        mua_loop cod' offset' (acc ++ shift_swaps source sw) qs' (S i)
+        mua_loop cod' offset' (acc ++ shift_swaps (length (firstn source cod)) sw) qs' (S i)
       else if target <? source then
         (* DEFECT F33 (bug-compatible): moves the wire at `target` to the far right
            instead of bringing the wire at `source` to `target` *)
         let sw := swap_boxes (slice cod target (S target)) (slice cod (S target) (S source)) in
         let cod' := firstn target cod ++ slice cod (S target) (S source) ++ slice cod target (S target)
                     ++ skipn (S source) cod in
-        mua_loop cod' offset (acc ++ shift_swaps target sw) qs' (S i)
+        mua_loop cod' offset (acc ++ shift_swaps (length (firstn target cod)) sw) qs' (S i)
       else mua_loop cod offset acc qs' (S i)
   end.
 
@@ -474,10 +477,10 @@ Definition from_tk_cmd (nq nb : nat) (psel : list (nat * bool)) (cod : list wty)
         let right := slice (skipn nq cod) bi (S bi) in
         let sdom := firstn (S offset) cod ++ left ++ right ++ skipn (nq + bi + 1) cod in
         let scod := firstn (S offset) cod ++ right ++ left ++ skipn (nq + bi + 1) cod in
-        let sw := shift_swaps (S offset) (swap_boxes left right) in
+        let sw := shift_swaps (length (firstn (S offset) cod)) (swap_boxes left right) in
         let b := BMeasure 1 false true in
         if negb (ty_eqb cod sdom) then Err AxiomError
-        else if negb (ty_eqb scod (firstn offset scod ++ bdom b ++ skipn (offset + 2) scod))
+        else if negb (layer_ok scod (b, offset))    (* swaps.cod == left @ box.dom @ right *)
         then Err AxiomError
         else Ok (FTK (f_layers f ++ swaps_layers sw ++ [(b, offset)] ++ swaps_layers (dagger_swaps sw))
                      (f_bras f))
@@ -486,7 +489,7 @@ Definition from_tk_cmd (nq nb : nat) (psel : list (nat * bool)) (cod : list wty)
     do b <- from_tk_box c;
     do q0 <- nth_res (c_qs c) 0;
     let '(offset, scod, sw) := mua_loop cod q0 [] (tl (c_qs c)) 0 in
-    if negb (ty_eqb scod (firstn offset scod ++ bdom b ++ skipn (offset + length (bdom b)) scod))
+    if negb (layer_ok scod (b, offset))            (* swaps.cod == left @ box.dom @ right *)
     then Err AxiomError
     else Ok (FTK (f_layers f ++ swaps_layers sw ++ [(b, offset)] ++ swaps_layers (dagger_swaps sw))
                  (f_bras f)).
@@ -826,10 +829,10 @@ Definition f18_trigger (t : tkc) : bool :=
                               existsb (fun kv => fst kv <? bi) (t_psel t)
                     | _ => false
                     end) (t_cmds t).
-(* trigger of F33: a two-qubit command whose second qubit lies two or more places
+(* trigger of F33: a two-qubit command whose second qubit lies three or more places
    to the right of the first *)
 Definition f33_trigger (t : tkc) : bool :=
   existsb (fun c => match c_qs c with
-                    | [a; b] => a + 1 <? b
+                    | [a; b] => a + 2 <? b
                     | _ => false
                     end) (t_cmds t).
